@@ -4,6 +4,7 @@ package main
 
 import (
 	"fmt"
+	"os"
 	"strings"
 	"time"
 )
@@ -83,6 +84,62 @@ func warmTermWith(sp *Spec, comb string) (string, error) {
 	return fmt.Sprintf("(warm_of %s)", atF(genTypes[gc.Returns].Coq+"_Compute", cfg)), nil
 }
 
+// defectiveTypes (VERIF_DEFECTIVE=type,type,... set by bin/vcheck from the open known findings): strategies recorded as
+// violating their own contract. They are still checked as subjects of their own; a wrapper around one of them is out of
+// the scope of the wrapper theorems (which assume the wrapped strategies keep the contract).
+var defectiveTypes = func() map[string]bool {
+	m := map[string]bool{}
+	for _, k := range strings.Split(os.Getenv("VERIF_DEFECTIVE"), ",") {
+		if k = strings.TrimSpace(k); k != "" {
+			m[k] = true
+		}
+	}
+	return m
+}()
+
+// admTermRec is the Coq term deciding whether a (possibly nested) strategy configuration is in scope: every base
+// strategy admissible, votes over k >= 1 strategies, no recorded-defective strategy below a wrapper.
+func admTermRec(sp *Spec, depth int) (string, error) {
+	gc := genCtors[sp.Ctor]
+	_, cfg, err := sp.Build()
+	if err != nil {
+		return "", err
+	}
+	all := func(subs []*Spec) (string, error) {
+		if len(subs) == 0 {
+			return "false", nil
+		}
+		t := "true"
+		for _, x := range subs {
+			a, err := admTermRec(x, depth+1)
+			if err != nil {
+				return "", err
+			}
+			t = fmt.Sprintf("(andb %s %s)", t, a)
+		}
+		return t, nil
+	}
+	switch gc.Returns {
+	case "strategy.AndStrategy", "strategy.OrStrategy", "strategy.MajorityStrategy":
+		var subs []*Spec
+		for i := range sp.Args {
+			for k := range sp.Args[i].List {
+				subs = append(subs, &sp.Args[i].List[k])
+			}
+		}
+		return all(subs)
+	case "strategy.SplitStrategy":
+		return all([]*Spec{sp.Args[0].Sub, sp.Args[1].Sub})
+	case "strategy/decorator.InverseStrategy", "strategy/decorator.NoLossStrategy", "strategy/decorator.StopLossStrategy":
+		return all([]*Spec{sp.Args[0].Sub})
+	}
+	if depth > 0 && defectiveTypes[gc.Returns] {
+		return "false", nil
+	}
+	name := "adm_" + genTypes[gc.Returns].Coq
+	return fmt.Sprintf("(%s (I:=snap) (T:=float) %s)", name, cfg), nil
+}
+
 func (c *Ctx) stratCaseWith(typeKey string, sp Spec, b Bars, reg string) (int, bool) {
 	t := genTypes[typeKey]
 	inst, cfg, err := sp.Build()
@@ -93,9 +150,16 @@ func (c *Ctx) stratCaseWith(typeKey string, sp Spec, b Bars, reg string) (int, b
 	if err != nil {
 		panic(err)
 	}
-	acts, hung := runStrategy(inst, b, 3*time.Second)
+	adm, err := admTermRec(&sp, 0)
+	if err != nil {
+		panic(err)
+	}
+	acts, hung := runStrategy(inst, b, time.Second)
+	if hung { // confirm with a generous limit: a loaded machine must not look like a deadlock
+		acts, hung = runStrategy(inst, b, 6*time.Second)
+	}
 	n := len(b.Close)
-	term := fmt.Sprintf("(let c_ := %s in CStrat %s %s (adm_%s c_) %s %s %s)", cfg, atF(t.Coq+"_Compute", "c_ (EIn 0)"), warm, t.Coq, coqBars(b), coqListZ(acts), coqBool(hung))
+	term := fmt.Sprintf("(let c_ := %s in CStrat %s %s %s %s %s %s)", cfg, atF(t.Coq+"_Compute", "c_ (EIn 0)"), warm, adm, coqBars(b), coqListZ(acts), coqBool(hung))
 	c.Count("type/" + typeKey)
 	c.Count("regime/" + reg)
 	c.Count(fmt.Sprintf("n<=%d", bucket(n)))
